@@ -72,3 +72,16 @@ func PollInfinite(interval time.Duration, cond ConditionFunc) error {
 func Until(f func(), period time.Duration, stopCh <-chan struct{}) {
 	wait.Until(f, period, stopCh)
 }
+
+// InlineUntil: when set (sequential harnesses driving a start-up path), GoUntil runs f once in the caller instead of
+// starting the periodic goroutine; the harness plays the later periods itself.
+var InlineUntil bool
+
+// GoUntil stands for the statement `go wait.Until(f, period, stopCh)`.
+func GoUntil(f func(), period time.Duration, stopCh <-chan struct{}) {
+	if InlineUntil {
+		f()
+		return
+	}
+	go wait.Until(f, period, stopCh)
+}
